@@ -446,9 +446,16 @@ func runC03(c *mon.Ctx) {
 		good := a.Confs[0]
 		var confs []sim.SubjConf
 		anyValid := false
+		// what a decoder that folds the repeated elements into one (last Method, last present data: K4) sees
+		mergedBearer, mergedData := false, false
 		for i := 2 + r.IntN(2); i > 0; i-- {
 			cf := good
-			switch r.IntN(5) {
+			variant := r.IntN(5)
+			mergedBearer = variant != 0
+			if variant != 3 {
+				mergedData = variant != 1 && variant != 2
+			}
+			switch variant {
 			case 0:
 				cf.Method = sim.S("urn:oasis:names:tc:SAML:2.0:cm:holder-of-key")
 			case 1:
@@ -475,7 +482,13 @@ func runC03(c *mon.Ctx) {
 		sp, _, _ := NewSP(now, w.IdP[2])
 		_, verr := sp.ValidateEncodedResponse(sim.Encode(doc, sim.RawLevel))
 		if verr == nil && !anyValid {
-			cs.Violation("accepted-without-valid-bearer", "accepted although none of the %d confirmations is a valid bearer confirmation for this SP", len(confs))
+			// the recorded finding K4 is the folded reading and nothing else: an acceptance that not even the folded
+			// reading explains (method taken from one element, data from another in some other way) is a new violation
+			key := "accepted-without-valid-bearer:confirmations-folded-last-method-last-data"
+			if !(mergedBearer && mergedData) {
+				key = "accepted-without-valid-bearer"
+			}
+			cs.Violation(key, "accepted although none of the %d confirmations is a valid bearer confirmation for this SP (folded reading valid: %v)", len(confs), mergedBearer && mergedData)
 		}
 		cs.Outcome(fmt.Sprintf("accepted=%v anyValid=%v", verr == nil, anyValid))
 	}
